@@ -23,6 +23,8 @@ evaluated on the implementation's answer):
                   mutated in place (theorem shared_inv_partial / shared_mutation_witness; known finding)
   reject_unchanged  a raising call changed the object
   auto_total      the auto-correcting setter raised on a wide interval
+  auto_total_rounding  it raised on a wide interval whose accepted limit absorbs `± TINY` in double arithmetic
+                  (open bound of magnitude >= 2^15 with the default precision; known finding)
   auto_total_precision  it raised on an interval at least 1e-9 wide that is not wide: constraint precision too large
                   for the width (full statement of `auto_total_partial`; known finding)
   auto_nearest    the corrected value is further than one step from the nearest accepted value
@@ -223,7 +225,18 @@ def autoExtra (p : Param α) (v : α) : Bool → Option (Param α) → String :=
     -- raised on an interval inside the property's quantifier (>= 1e-9 wide) that is not `wide`: the constraint's
     -- precision is too large for the width (`auto_precision_witness`, known finding); narrower intervals are
     -- outside the quantifier (`auto_narrow_witness`)
-    if raised then (if c.wide then "FAIL:auto_total" else if c.widthOk then "FAIL:auto_total_precision" else "ok")
+    -- raised on a wide interval although the theorem (over the reals) says it cannot: in double arithmetic the
+    -- inward fallback step is absorbed when the (rejected) limit `L` satisfies `L ± TINY == L`
+    -- (|L| >= 2^15 for the default precision): `auto_total_rounding`, known finding; never true at `Rat`
+    if raised then
+      (if c.wide then
+        (match c.getAcceptedLimit (.fin v) with
+         | .fin l =>
+           -- the step towards the inside of the interval is absorbed: `l` is the rejected bound itself
+           let inward := if c.geV (.fin v) then l + Constants.TINY else l - Constants.TINY
+           if !c.isCorrect l && Scalar.eqb inward l then "FAIL:auto_total_rounding" else "FAIL:auto_total"
+         | _ => "FAIL:auto_total")
+       else if c.widthOk then "FAIL:auto_total_precision" else "ok")
     else match q with
       | some p' => if !c.wide || p.nearestOk (Scalar.ofInt (Codec.slack α)) v p'.value then "ok" else "FAIL:auto_nearest"
       | none => "FAIL:parse"
